@@ -25,8 +25,10 @@ CONSTANTS GuardTypedNil,      \* TRUE: typed-nil pointer payloads/destinations y
                               \* FALSE: as-built, reflect on the zero Value / nil dereference panics (finding D10)
           CloseOnNilPayload,  \* TRUE: with ClosesStream the stream is closed even when the payload/destination is nil (normative)
                               \* FALSE: as-built, the nil check returns before the closer is installed
-          PooledBuffer        \* FALSE: every Consume reads into its own fresh bytes.Buffer (the code)
+          PooledBuffer,       \* FALSE: every Consume reads into its own fresh bytes.Buffer (the code)
                               \* TRUE: mutated model, the intermediate buffer is shared between calls (sync.Pool)
+          UEOFIsEnd           \* FALSE: only io.EOF itself ends a stream (bytes.Buffer.ReadFrom: e == io.EOF) (the code)
+                              \* TRUE: mutated model, io.ErrUnexpectedEOF from the reader is taken for the end of the stream
 
 Blob(seq) == [n |-> Len(seq), h |-> "", b |-> seq]
 EmptyBlob == Blob(<<>>)
@@ -56,6 +58,19 @@ ReadAllLoop(sc, rd, acc) ==
   ELSE ReadAllLoop(sc, r.rd, acc \o r.bytes)
 ReadAll(sc) == ReadAllLoop(sc, RdInit, <<>>)
 
+(* The IDENTITY of the error a failing stream returns (cfg field ekind,     *)
+(* absent = "custom"): whatever it is - io.ErrUnexpectedEOF, an error       *)
+(* wrapping io.EOF or io.ErrUnexpectedEOF, io.ErrClosedPipe,                *)
+(* context.Canceled, an application error - it is an error; only io.EOF     *)
+(* itself is the end of a stream.                                           *)
+ErrKinds == {"custom", "ueof", "ueofwrap", "eofwrap", "closedpipe", "canceled"}
+EKind(c) == IF "ekind" \in DOMAIN c THEN c.ekind ELSE "custom"
+
+(* buf.ReadFrom(reader) of the buffered path *)
+ReadAllBuffered(c) ==
+  LET r == ReadAll(c.sc) IN
+  IF r.err = "rerr" /\ UEOFIsEnd /\ EKind(c) \in {"ueof", "ueofwrap"} THEN [bytes |-> r.bytes, err |-> "none"] ELSE r
+
 (* io.Copy's generic loop: write what was read, then look at the read error *)
 RECURSIVE CopyLoop(_, _, _, _)
 CopyLoop(sc, rd, accept, wst) ==
@@ -79,7 +94,8 @@ WriteTo(sc, accept) == WriteToLoop(sc, 1, 0, accept, WrInit)
 
 (***************************************************************************)
 (* Consumers.                                                              *)
-(*  c = [codec, sc, content, term, rkind, closeOpt, dst, pre, wacc, uerr] *)
+(*  c = [codec, sc, content, term, ekind, rkind, closeOpt, dst, pre, wacc, *)
+(*       uerr]   ekind: identity of the reader's error when term = "err"   *)
 (*    sc     reader script (used by the model only); content = Blob of its *)
 (*           bytes and term = its terminal condition (used by the property)*)
 (*    codec  "bytes" | "text"                                              *)
@@ -116,7 +132,7 @@ BSConsume(c) ==
        LET r == ReadAll(c.sc) IN COut(r.err, r.bytes, cl, FALSE)
   ELSE IF c.dst = "writer" THEN                                               \* io.Writer: io.Copy
        LET r == Copy(c.sc, c.wacc) IN COut(r.err, r.got, cl, FALSE)
-  ELSE LET r == ReadAll(c.sc) IN                                              \* buf.ReadFrom(reader)
+  ELSE LET r == ReadAllBuffered(c) IN                                         \* buf.ReadFrom(reader)
        IF r.err # "none" THEN COut("rerr", pre, cl, FALSE)
        ELSE CASE c.dst = "binunm" -> IF c.uerr THEN COut("uerr", pre, cl, FALSE) ELSE COut("none", r.bytes, cl, FALSE)
               [] c.dst \in {"anystring", "anybytes"} -> COut("none", r.bytes, cl, FALSE)
@@ -130,7 +146,7 @@ BSConsume(c) ==
 TextConsume(c) ==
   LET pre == PreOf(c) IN
   IF c.rkind = "nil" THEN COut("other", pre, 0, FALSE)
-  ELSE LET r == ReadAll(c.sc) IN
+  ELSE LET r == ReadAllBuffered(c) IN
        IF r.err # "none" THEN COut("rerr", pre, 0, FALSE)
        ELSE IF r.bytes = <<>> THEN COut("none", pre, 0, FALSE)                      \* EmptyTextNoop
        ELSE CASE c.dst = "textunm" -> IF c.uerr THEN COut("uerr", pre, 0, FALSE) ELSE COut("none", r.bytes, 0, FALSE)
